@@ -39,25 +39,29 @@ theorem editorAlignOpts_regenerated (h : Gen.Code.editorAlignOpts_extracted = tr
          have hLR : Gen.alignLeft ≠ Gen.alignRight := by decide
          have hLC : Gen.alignLeft ≠ Gen.alignCenter := by decide
          have hRC : Gen.alignRight ≠ Gen.alignCenter := by decide
-         split
-         · congr 1
-           funext i para pre suf
-           rcases hA with hA | hA | hA
-           all_goals
-             (simp only [hA, hLR, hLR.symm, hLC, hLC.symm, hRC, hRC.symm, if_true, if_false, alignParaLeft, alignParaRight,
-                alignParaCenter, Block.mapLinesM, mapM_pure_R, flatten_map_singleton_fun, bind_assoc, pure_bind]
-              generalize Block.new _ od.lineSep = bl
-              split
-              · simp_all
-              · simp only [List.isEmpty_iff, bind_assoc, pure_bind]
-                rw [if_neg (show ¬ bl.lines = [] by assumption)]
-                try simp only [bind_assoc, bind_dup, ite_pure, pure_bind]
-                repeat (refine bind_congr (m := R) fun _ => ?_)
-                go_close)
-         · simp only [Editor.applyOpts]
-           congr 1
-           funext i l
-           go_close)
+         cases hpp : od.preservePara
+         all_goals
+           (simp only [hpp, Bool.false_eq_true, Bool.true_eq_false, if_true, if_false, ↓reduceIte]
+            first
+              | -- line mode
+                (simp only [Editor.applyOpts]
+                 congr 1
+                 funext i l
+                 go_close)
+              | -- paragraph mode: one case per alignment
+                (congr 1
+                 funext i para pre suf
+                 rcases hA with hA | hA | hA
+                 all_goals
+                   (simp only [hA, hLR, hLR.symm, hLC, hLC.symm, hRC, hRC.symm, if_true, if_false, alignParaLeft, alignParaRight,
+                      alignParaCenter, Block.mapLinesM, mapM_pure_R, flatten_map_singleton_fun, bind_assoc, pure_bind]
+                    generalize Block.new _ od.lineSep = bl
+                    split
+                    · simp_all
+                    · simp only [List.isEmpty_iff, bind_assoc, pure_bind]
+                      rw [if_neg (show ¬ bl.lines = [] by assumption)]
+                      try simp only [bind_assoc, bind_dup, ite_pure, pure_bind]
+                      go_deep))))
 
 theorem editorAlign_regenerated (h : Gen.Code.editorAlign_extracted = true)
     (hd : DefaultsOk cx) (hpos : ∀ a, 0 < cx.blen a) (ed : Editor α) (align width : Int) :
